@@ -150,7 +150,9 @@ def check_doc(doc):
                 got_chars.append((ch, ms))
         gt = "".join(c for c, _ in got_chars)
         wt = "".join(c for c, _ in want_chars)
-        if gt != wt:
+        # a carriage return that is not the one in front of the line feed stays in the line; the renderer writes it as a
+        # raw CR, which every XML parser hands back as LF (XML 1.0 line-end normalisation), so the two are not told apart
+        if gt.replace("\r", "\n") != wt.replace("\r", "\n"):
             out.append(("c14:text", "line %d: text recovered from the spans is %r, the visible text is %r" % (li, gt[:80], wt[:80])))
             continue
         for ci, ((c, gm), (_, wm)) in enumerate(zip(got_chars, want_chars)):
